@@ -70,6 +70,10 @@ type ScriptCase struct {
 	// MockClock: the instance runs on a mock clock with the timer definition
 	// builder; stimuli of kind "clock" advance it.
 	MockClock bool `json:"mockClock,omitempty"`
+	// ModelAsIs runs the reference model with the engine's KNOWN boundary-event
+	// deviations (model.M.AsIs): used to decide whether a failure is exactly a
+	// listed finding or something else.
+	ModelAsIs bool `json:"modelAsIs,omitempty"`
 }
 
 // ScriptOutcome of a scripted run.
@@ -131,8 +135,9 @@ func applyModel(m *model.M, s Stim) (obs model.Obs, node string, ok bool) {
 	return model.Obs{}, "", false
 }
 
-func replayModel(g *gen.Graph, vars map[string]any, hist []Stim) *model.M {
+func replayModel(g *gen.Graph, vars map[string]any, hist []Stim, asIs bool) *model.M {
 	m := model.New(g, vars)
+	m.AsIs = asIs
 	m.Start()
 	for _, s := range hist {
 		applyModel(m, s)
@@ -233,6 +238,7 @@ func RunScript(c *ScriptCase) *ScriptOutcome {
 		return fail("consume-blocked", "an event delivered right after StartAll has not returned although the instance is quiescent", gs)
 	}
 	m := model.New(c.Graph, c.Vars)
+	m.AsIs = c.ModelAsIs
 	obs := m.Start()
 	var hist []Stim
 	pend := map[string][]bpmn.TaskTrace{}
@@ -316,7 +322,7 @@ func RunScript(c *ScriptCase) *ScriptOutcome {
 		}
 		if s.Kind != "burst" {
 			// which node would the model answer?
-			probe := replayModel(c.Graph, c.Vars, hist)
+			probe := replayModel(c.Graph, c.Vars, hist, c.ModelAsIs)
 			_, node, ok := applyModel(probe, s)
 			if !ok {
 				out.Skipped++
@@ -351,7 +357,7 @@ func RunScript(c *ScriptCase) *ScriptOutcome {
 		// burst: resolve the engine targets against the current model state,
 		// fire all concurrently, then accept any serialisation
 		var dones []chan struct{}
-		probe := replayModel(c.Graph, c.Vars, hist)
+		probe := replayModel(c.Graph, c.Vars, hist, c.ModelAsIs)
 		var members []Stim
 		nodes := map[int]string{}
 		for _, b := range s.Burst {
@@ -434,7 +440,7 @@ func RunScript(c *ScriptCase) *ScriptOutcome {
 		var cands []cand
 		sigs := map[string]bool{}
 		for _, p := range permutations(len(members)) {
-			mm := replayModel(c.Graph, c.Vars, hist)
+			mm := replayModel(c.Graph, c.Vars, hist, c.ModelAsIs)
 			var exp, fired []string
 			var ser []Stim
 			okAll := true
